@@ -36,11 +36,12 @@ pub const BLOCK_KINDS: &[&str] = &[
     "wave",
     "call_ring",
     "const_edges",
+    "register_spaces",
 ];
 
 /// Block kinds that are not validated at start-up: they probe the edges of constant evaluation and
 /// may legitimately be rejected, but must never take the compiler down
-const UNVALIDATED: &[&str] = &["const_edges"];
+const UNVALIDATED: &[&str] = &["const_edges", "register_spaces"];
 
 fn pick<'a>(rng: &mut Rng, xs: &[&'a str]) -> &'a str {
     xs[rng.below(xs.len() as u64) as usize]
@@ -373,6 +374,56 @@ pub fn block(kind: &str, rng: &mut Rng, u: usize) -> (String, String) {
                     _ => {
                         decl.push_str(&format!("static const {ty} ce{u}_{k} = {e};\n"));
                         body.push_str(&format!("sink += (int)ce{u}_{k};\n"));
+                    }
+                }
+            }
+        }
+        "register_spaces" => {
+            // explicit registers and register spaces / bind groups beyond what the tests use,
+            // and the unsupported packoffset annotation
+            let n = rng.range(2, 5);
+            for k in 0..n {
+                let space = [0u64, 1, 2, 3, 4, 5, 7][rng.below(7) as usize];
+                match rng.below(5) {
+                    0 => decl.push_str(&format!(
+                        "const Texture2D<float4> rs_t{u}_{k} : register(t{}, space{space});\n",
+                        rng.below(6)
+                    )),
+                    1 => decl.push_str(&format!(
+                        "const RWByteAddressBuffer rs_b{u}_{k} : register(space{space});\n"
+                    )),
+                    2 => decl.push_str(&format!(
+                        "[[rssl::bind_group({space})]] const StructuredBuffer<uint> rs_s{u}_{k};\n"
+                    )),
+                    3 => decl.push_str(&format!(
+                        "const SamplerState rs_smp{u}_{k} : register(s{}, space{space});\n",
+                        rng.below(4)
+                    )),
+                    _ => {
+                        if rng.chance(1, 3) {
+                            decl.push_str(&format!(
+                                "cbuffer RsCb{u}_{k} : register(b{}, space{space}) {{ float4 rs_v{u}_{k} : packoffset(c0); }}\n",
+                                rng.below(4)
+                            ));
+                        } else {
+                            decl.push_str(&format!(
+                                "cbuffer RsCb{u}_{k} : register(b{}, space{space}) {{ float4 rs_v{u}_{k}; }}\n",
+                                rng.below(4)
+                            ));
+                        }
+                        body.push_str(&format!("sink += (int)rs_v{u}_{k}.x;\n"));
+                    }
+                }
+            }
+            // use what was declared
+            for line in decl.clone().lines() {
+                for prefix in ["rs_t", "rs_b", "rs_s", "rs_smp"] {
+                    if let Some(pos) = line.find(&format!(" {prefix}{u}_")) {
+                        let name: String = line[pos + 1..]
+                            .chars()
+                            .take_while(|c| c.is_alphanumeric() || *c == '_')
+                            .collect();
+                        body.push_str(&format!("{name};\n"));
                     }
                 }
             }
